@@ -65,7 +65,7 @@ def rule_shrink(ctx, rep, rid):
     rep.touch(f)
     szs = pat.stores(f, "cds_lfht.size")
     gps = gp_icalls(f)
-    rm = pat.calls(f, "remove_table")
+    rm = pat.calls_opt(f, "remove_table") + [c for c in pat.calls_opt(f, "partition_resize_helper") if ir.expr(f, c.args[3]) == ("fn", "remove_table_partition")]
     fr = pat.calls(f, "cds_lfht_free_bucket_table")
     pat.require(szs and rm and fr, "fini_table anatomy (size store / remove_table / free_bucket_table)")
     if not gps:
@@ -87,7 +87,7 @@ def rule_grow(ctx, rep, rid):
     rep.touch(f)
     szs = pat.stores(f, "cds_lfht.size")
     al = pat.calls_opt(f, "cds_lfht_alloc_bucket_table")
-    po = pat.calls_opt(f, "init_table_populate")
+    po = pat.calls_opt(f, "init_table_populate") + [c for c in pat.calls_opt(f, "partition_resize_helper") if ir.expr(f, c.args[3]) == ("fn", "init_table_populate_partition")]
     pat.require(szs, "init_table: size store")
     if not al or not po:
         rep.bad(rid, "init_table.anatomy", "init_table publishes a larger size without %s the new level" % ("allocating" if not al else "populating"), [szs[0].where()])
